@@ -45,7 +45,7 @@ def run_spec(built, seed, tier, spec):
     cfg = core.make_config(structured=True if spec["structured"] else None, use_cache=use_cache)
     # ambient state (permission bits, mtimes, a stale Breadlog.lock.tmp, editor droppings) must not matter: same oracle
     amb = ambient.choose(rnd, t.files, p=0.4, mx=mx,
-                         kinds=["stale_lock_tmp", "stale_lock_tmp", "ro_sources", "mtimes", "siblings", "mix"])
+                         kinds=["stale_lock_tmp", "stale_lock_tmp", "ancestor_lock", "ancestor_lock", "ro_sources", "mtimes", "siblings", "mix"])
     spec["ambient"] = amb["kind"]
     with core.Box(tag="c01") as box:
         out = lab.run_tree(built, box, t.files, cfg, do_check=False, trace=False, lock=lock_text, ambient=amb)
